@@ -29,6 +29,12 @@ type CState struct {
 	Lvl  []int      `json:"lvl"`
 }
 
+// sliceOp: a user-defined Operator whose Go type is NOT comparable (== on two of them panics)
+type sliceOp []string
+
+func (o sliceOp) String() string  { return strings.Join(o, "") }
+func (sliceOp) Context() string   { return "user" }
+
 type emptyCtxOp struct{}
 
 func (emptyCtxOp) String() string  { return "%" }
@@ -60,6 +66,8 @@ func ConcOp(o string) stackage.Operator {
 		return stackage.ComparisonOperator(9)
 	case "user":
 		return userOp("~=")
+	case "uslice":
+		return sliceOp{"~="}
 	case "like":
 		return userOp("like")
 	case "LIKE":
